@@ -23,7 +23,7 @@ impl Property for C11 {
          oracle = objective evaluated exactly on ALL 2^n assignments + multilinear reduction (unique representation); non-trivial = n>=3 and (a monomial with a repeated id or a cancelling pair); distinct = sha256(instance, mode)"
     }
     fn required_labels(&self) -> Vec<String> {
-        ["x^2", "cancel", "deg>2-collapses-to-pair", "refusal=constraint", "refusal=maximize", "refusal=non-binary", "refusal=qubo-3-distinct", "format=pubo", "format=qubo", "regime=general", "regime=dyadic", "removed-constraint-present", "objective-absent", "unused-non-binary-variable", "non-binary-variable-in-removed-constraint", "id=u64::MAX", "objective-absent+refusal", "largest-id-at-word-boundary", "sweep=many-raw-terms"].iter().map(|s| s.to_string()).collect()
+        ["x^2", "cancel", "deg>2-collapses-to-pair", "refusal=constraint", "refusal=maximize", "refusal=non-binary", "refusal=qubo-3-distinct", "format=pubo", "format=qubo", "regime=general", "regime=dyadic", "removed-constraint-present", "objective-absent", "unused-non-binary-variable", "non-binary-variable-in-removed-constraint", "id=u64::MAX", "objective-absent+refusal", "largest-id-at-word-boundary", "sweep=many-raw-terms", "refusal=constraint-with-zero-function", "shuffled-variable-list"].iter().map(|s| s.to_string()).collect()
     }
     fn cases(&self, tier: Tier) -> usize {
         match tier {
@@ -246,7 +246,24 @@ impl Property for C11 {
                 let mut c = v1::Constraint::default();
                 c.id = 1;
                 c.equality = LE_ZERO;
-                c.function = Some(crate::mk::fconst(-1.0));
+                // whatever the remaining constraint says (also 0 = 0 as left behind by a partial evaluation), it is active
+                c.function = match t.choice(5) {
+                    0 => Some(crate::mk::fconst(-1.0)),
+                    1 => {
+                        ctx.label("refusal=constraint-with-zero-function");
+                        Some(crate::mk::fconst(0.0))
+                    }
+                    2 => {
+                        ctx.label("refusal=constraint-with-zero-function");
+                        Some(crate::mk::flin(crate::mk::linear(vec![], 0.0)))
+                    }
+                    3 => {
+                        c.equality = EQ_ZERO;
+                        ctx.label("refusal=constraint-with-zero-function");
+                        Some(crate::mk::flin(crate::mk::linear(vec![(ids[0], 0.0)], 0.0)))
+                    }
+                    _ => Some(crate::mk::flin(crate::mk::linear(vec![(ids[0], 1.0)], -1.0))),
+                };
                 inst.constraints.push(c);
                 ctx.label("refusal=constraint");
                 expect_err = true;
@@ -279,6 +296,14 @@ impl Property for C11 {
                 }
             }
             _ => {}
+        }
+        // the list of decision variables is in no particular order
+        {
+            let before: Vec<u64> = inst.decision_variables.iter().map(|v| v.id).collect();
+            t.shuffle(&mut inst.decision_variables);
+            if inst.decision_variables.iter().map(|v| v.id).collect::<Vec<_>>() != before {
+                ctx.label("shuffled-variable-list");
+            }
         }
         if has_sq {
             ctx.label("x^2");
